@@ -209,8 +209,15 @@ def handle_imagemod(self, mod_type, match):
         handle_img_width(self, match)
 
 
+_numeric_entity_rx = re.compile(r"&#(?:[0-9]+|[xX][0-9a-fA-F]+);\Z")
+
+
 def resolve_entity(entity):
     if entity[1] == "#":
+        if not _numeric_entity_rx.match(entity):
+            # int() also accepts blanks, signs, underscores and non-ASCII
+            # digits; '&# 65;' or '&#+65;' are not character references
+            return entity
         try:
             if entity[2] == "x" or entity[2] == "X":
                 return chr(int(entity[3:-1], 16))
